@@ -170,6 +170,12 @@ PROPERTIES = {
         'explanation': 'theorems: for a prerelease v, satisfies = exists an alternative containing v whose lower or upper bound is a prerelease of the same tuple; releases are never gated; build metadata on either side is ignored; '
                        'a generated -0 upper bound never opens the gate; the opt-in survives intersection exactly for versions within both operands',
     },
+    'C11': {
+        'families': [{'name': 'minv', 'gen': FS.gen_minv, 'eval': FS.eval_minv}],
+        'rule': 'min_version on every one-interval range of the small universe, random multi-alternative ranges and set-operation results; the returned version is fed back to satisfies(), '
+                'and every probed version that satisfies is compared with it; non-trivial = ranges with several alternatives or whose answer is a prerelease',
+        'explanation': 'theorems: Some(m) implies m satisfies and is a lower bound of all satisfying versions; None implies nothing satisfies; per alternative, an empty alternative contributes no candidate',
+    },
     'C14': {
         'families': [{'name': 'extreme', 'gen': FT.gen_extreme, 'eval': FT.eval_extreme}],
         'rule': 'random ranges with version lists drawn around their bounds; non-trivial = calls for which at least two list elements satisfy the range',
